@@ -869,7 +869,7 @@ class Recon:
                         return ("func", f"{c.key}.{name}")
                     if name in c.class_assigns and len(c.class_assigns[name]) == 1:
                         try:
-                            return S.C(self.prog.fold(c.class_assigns[name][0], c.mod, c))
+                            return S.C(self.prog.fold_class_level(c.class_assigns[name][0], c))
                         except NotConst:
                             return self._class_level(c, name)
             return ("attr", base, name)
@@ -883,6 +883,11 @@ class Recon:
             return alts[0] if len(alts) == 1 else ("join", tuple(sorted(alts, key=repr)))
         if k == "ite":
             return ("ite", base[1], self.attr(base[2], name, ctx, depth + 1), self.attr(base[3], name, ctx, depth + 1))
+        if k == "bool" and base[1] in ("or", "and") and len(base[2]) == 2 and depth < MAX_DEPTH:
+            # (a or b).x is a.x if a else b.x;  (a and b).x is b.x if a else a.x
+            a, b = base[2]
+            first, second = (a, b) if base[1] == "or" else (b, a)
+            return ("ite", a, self.attr(first, name, ctx, depth + 1), self.attr(second, name, ctx, depth + 1))
         return ("attr", base, name)
 
     def _class_by_key(self, key: str) -> ClassInfo | None:
@@ -993,7 +998,7 @@ class Recon:
                 return ("func", f"{c.key}.{name}")
             if name in c.class_assigns and len(c.class_assigns[name]) == 1:
                 try:
-                    return S.C(self.prog.fold(c.class_assigns[name][0], c.mod, c))
+                    return S.C(self.prog.fold_class_level(c.class_assigns[name][0], c))
                 except NotConst:
                     return self._class_level(c, name)
         for c in mro:
